@@ -24,6 +24,7 @@ from genjax._src.core.compiler.interpreters.incremental import Diff
 from genjax._src.core.compiler.staging import FlagOp, tree_choose
 from genjax._src.core.pytree import Pytree
 from genjax._src.core.typing import (
+    Any,
     Array,
     ArrayLike,
     Flag,
@@ -255,7 +256,12 @@ class Mask(Generic[R], Pytree):
         else:
 
             def inner(true_v: ArrayLike, false_v: ArrayLike) -> Array:
-                return jnp.where(self.primal_flag(), true_v, false_v)
+                # a vectorized flag is aligned with the leading axes of each leaf
+                flag = self.primal_flag()
+                extra = jnp.ndim(true_v) - jnp.ndim(flag)
+                if extra > 0:
+                    flag = jnp.reshape(flag, jnp.shape(flag) + (1,) * extra)
+                return jnp.where(flag, true_v, false_v)
 
             return jtu.tree_map(inner, self.value, default)
 
@@ -306,6 +312,17 @@ class Mask(Generic[R], Pytree):
         # Note that the validation has already run to check that these flags have the same shape.
         return first + 2 * FlagOp.and_(FlagOp.not_(first), second) - 1
 
+    @staticmethod
+    def _choose(idx: ArrayLike, first: Any, second: Any) -> Any:
+        """Leafwise `tree_choose` between two values, with a vectorized `idx` aligned to the *leading* axes of each leaf (flag shapes are prefixes of leaf shapes)."""
+
+        def inner(a, b):
+            extra = jnp.ndim(a) - jnp.ndim(idx)
+            i = jnp.reshape(idx, jnp.shape(idx) + (1,) * extra) if extra > 0 else idx
+            return tree_choose(i, [a, b])
+
+        return jtu.tree_map(inner, first, second)
+
     def __or__(self, other: "Mask[R]") -> "Mask[R]":
         self._validate_mask_shapes(other)
 
@@ -316,7 +333,7 @@ class Mask(Generic[R], Pytree):
                 return other
             case self_flag, other_flag:
                 idx = self._or_idx(self_flag, other_flag)
-                return tree_choose(idx, [self, other])
+                return Mask._choose(idx, self, other)
 
     def __xor__(self, other: "Mask[R]") -> "Mask[R]":
         self._validate_mask_shapes(other)
@@ -334,7 +351,7 @@ class Mask(Generic[R], Pytree):
                 # note that `idx` above will choose the correct side for the FF, FT and TF cases,
                 # but will equal 0 for TT flags. We use `FlagOp.xor_` to override this flag to equal
                 # False, since neither side in the TT case will provide a `False` flag for us.
-                chosen = tree_choose(idx, [self.value, other.value])
+                chosen = Mask._choose(idx, self.value, other.value)
                 return Mask(chosen, FlagOp.xor_(self_flag, other_flag))
 
     def __invert__(self) -> "Mask[R]":
